@@ -13,7 +13,7 @@ use serde_json::{Value, json};
 use std::time::Duration;
 
 pub fn meta(rep: &mut Report) {
-    rep.rule = "bit-vector systems of the skeleton families (K1,K2,K4,K5,K6,K7; S1 sweeps, hand-ranked pools in quick) x personas {bitwuzla,z3,cvc5} with unsat-core generalisation on and off, yices persona (push/pop style) with generalisation off x solver-answer policies {default(min model, minimal core), all-max, min-with-ones-filling, full cores, padded cores}; for a subset of systems every single deviation from the default answer at every choice point of the recorded conversation (deviation bound 1; bound 2 in thorough for a few systems) is run as its own session. Oracle: explicit-state reachability to a fixpoint: Success => no bad state reachable, Fail => one is reachable and the witness replays; Err/Unknown/panic/timeout on a fault-free run is a violation. distinct_nontrivial = distinct (system, config, schedule) sessions with at least 3 check-sat queries; states/transitions = reference reachability search; traces_validated_against_impl = sessions compared with the oracle".into();
+    rep.rule = "bit-vector systems of the skeleton families (K1,K2,K4,K5,K6,K7; S1 sweeps, hand-ranked pools in quick) x personas {bitwuzla,z3,cvc5} with unsat-core generalisation on and off, yices persona (push/pop style) with generalisation off x solver-answer policies {default(min model, minimal core), all-max, min-with-ones-filling, full cores, padded cores}; for a subset of systems every single deviation from the default answer at every choice point of the recorded conversation (deviation bound 1; in thorough also bound 2 — every pair of deviations, the second taken from the first one's own conversation — for up to 12 systems with at most 80 single deviations) is run as its own session. Oracle: explicit-state reachability to a fixpoint: Success => no bad state reachable, Fail => one is reachable and the witness replays; Err/Unknown/panic/timeout on a fault-free run is a violation. distinct_nontrivial = distinct (system, config, schedule) sessions with at least 3 check-sat queries; states/transitions = reference reachability search; traces_validated_against_impl = sessions compared with the oracle".into();
     rep.assumptions = vec![
         "reference solver answers are legal by construction (models satisfy the query, cores are unsatisfiable subsets)".into(),
         "termination is observed as 'returns within the deadline, twice'".into(),
@@ -156,7 +156,7 @@ pub fn run(opts: &Opts, rep: &Report) {
     rep.add("policy_sessions_enumerated", sessions.len() as u64);
     let mut done = 0;
     // the policy sweep may use 60% of the budget; the deviation-bounded exploration gets the rest
-    let policy_budget = Budget::new(opts.budget_s * 0.6);
+    let policy_budget = Budget::new(opts.budget_s * if tier.is_thorough() { 0.4 } else { 0.6 });
     for chunk in sessions.chunks(96) {
         if policy_budget.exceeded() {
             rep.cap_hit(&format!("budget: {done}/{} policy sessions run", sessions.len()));
@@ -169,6 +169,7 @@ pub fn run(opts: &Opts, rep: &Report) {
     let n_dev_systems = if tier.is_thorough() { 60 } else { 6 };
     let stride = (specs.len() / n_dev_systems).max(1);
     let mut explored = 0u64;
+    let mut bound2_systems = 0u64;
     for (si, (spec, safe, _)) in specs.iter().enumerate().filter(|(i, _)| i % stride == (opts.seed as usize) % stride).take(n_dev_systems) {
         if budget.exceeded() {
             rep.cap_hit(&format!("budget: deviation-1 exploration covered {explored}/{n_dev_systems} systems"));
@@ -205,19 +206,69 @@ pub fn run(opts: &Opts, rep: &Report) {
             }
         }
         rep.add("deviation1_sessions", devs.len() as u64);
+        let mut cut = false;
+        let mut dev1_results: Vec<(String, u64, Value)> = vec![];
         for chunk in devs.chunks(96) {
             if budget.exceeded() {
                 rep.cap_hit("budget: deviation-1 exploration of a system cut short");
+                cut = true;
                 break;
             }
-            run_sessions(chunk, rep, threads);
+            let rs = run_sessions(chunk, rep, threads);
+            for (s, r) in chunk.iter().zip(rs.into_iter()) {
+                let sched = s.env["REFSMT_SCHEDULE"].as_str().unwrap_or("").to_string();
+                let at: u64 = sched.split(':').next().and_then(|x| x.parse().ok()).unwrap_or(0);
+                dev1_results.push((sched, at, r));
+            }
         }
         explored += 1;
+        // deviation bound 2 (thorough): from every deviation-1 run, every alternative at every LATER choice
+        // point of that run's own conversation (earlier points are covered from the run that deviates there)
+        if tier.is_thorough() && !cut && bound2_systems < 12 && devs.len() <= 80 {
+            let mut devs2: Vec<Sess> = vec![];
+            for (sched1, at, r) in dev1_results.iter() {
+                for (idx, kind, arity, taken) in choice_points(r).iter() {
+                    if idx <= at {
+                        continue;
+                    }
+                    let alts: Vec<usize> = if kind == "model" { vec![1usize, 2, 3] } else { (0..*arity).collect() };
+                    for a in alts {
+                        if a == *taken || a >= *arity {
+                            continue;
+                        }
+                        let sched = format!("{sched1},{idx}:{kind}:{a}");
+                        devs2.push(Sess {
+                            spec: spec.clone(),
+                            cfg: cfg.clone(),
+                            env: json!({"REFSMT_COUNT": "64", "REFSMT_SCHEDULE": sched}),
+                            label: format!("deviations {sched}"),
+                            safe: *safe,
+                            order: (1 << 41) + ((si as u64) << 24) + ((*at & 0xff) << 16) + ((*idx & 0xff) << 8) + a as u64,
+                        });
+                    }
+                }
+            }
+            rep.add("deviation2_sessions_enumerated", devs2.len() as u64);
+            let mut complete = true;
+            for chunk in devs2.chunks(96) {
+                if budget.exceeded() {
+                    rep.cap_hit("budget: deviation-2 exploration of a system cut short");
+                    complete = false;
+                    break;
+                }
+                run_sessions(chunk, rep, threads);
+                rep.add("deviation2_sessions", chunk.len() as u64);
+            }
+            if complete {
+                bound2_systems += 1;
+            }
+        }
     }
-    rep.note("deviation_bound_completed", json!(if explored > 0 { 1 } else { 0 }));
+    rep.add("systems_with_deviation_bound_2_completed", bound2_systems);
+    rep.note("deviation_bound_completed", json!(if bound2_systems > 0 { 2 } else if explored > 0 { 1 } else { 0 }));
 }
 
-fn run_sessions(chunk: &[Sess], rep: &Report, threads: usize) {
+fn run_sessions(chunk: &[Sess], rep: &Report, threads: usize) -> Vec<Value> {
     let jobs: Vec<Value> = chunk.iter().map(|s| job(&s.spec, &s.cfg, s.env.clone(), false)).collect();
     let results = run_jobs(&jobs, threads, Duration::from_secs(90));
     let mut hs = vec![];
@@ -243,6 +294,7 @@ fn run_sessions(chunk: &[Sess], rep: &Report, threads: usize) {
         }
     }
     rep.distinct_hashes(&hs);
+    results
 }
 
 pub fn replay(case: &Value, rep: &Report) {
